@@ -94,6 +94,17 @@ class Case:
         extra = [self.keyname[k] for k in sp.get("enable", [])]
         if extra:
             tracks.enable_features(extra)
+        if sp.get("prebuilt"):
+            # second construction path: a pre-built FeatureDict (features activated, not recomputed)
+            import copy as _copy
+            from funtracks.features import FeatureDict
+            f0 = tracks.features
+            fd = FeatureDict(features={k: dict(v) for k, v in f0.items()}, time_key=f0.time_key,
+                             position_key=_copy.copy(f0.position_key), tracklet_key=f0.tracklet_key,
+                             lineage_key=f0.lineage_key)
+            g2 = _copy.deepcopy(tracks.graph)
+            seg2 = None if tracks.segmentation is None else tracks.segmentation.copy()
+            tracks = SolutionTracks(g2, segmentation=seg2, scale=self.scale, ndim=self.ndim, features=fd)
         return tracks
 
     # ---- encoding for the model -----------------------------------------------------------
